@@ -1,12 +1,309 @@
 package main
 
-// ModGraph is the module call graph with escape edges (built lazily; see callgraph_build.go).
+import (
+	"go/types"
+	"sort"
+	"strings"
+
+	"golang.org/x/tools/go/ssa"
+)
+
+// ModGraph is the module call graph with escape edges (DESIGN.md 2.1):
+//   - static calls are resolved exactly;
+//   - an interface invoke goes to every module type whose method set satisfies the interface
+//     (CHA restricted to the module; sound for values created through reflection as long as
+//     their type is in the program);
+//   - calls of function values go to every module function of identical signature whose value is
+//     taken somewhere (closures, method values, function-typed fields);
+//   - escape edges: a module function value handed to a library call is called at that site, and
+//     a module value converted to an interface and handed to a library call makes its methods
+//     callable from that site.
 type ModGraph struct {
-	Out map[string][]cgEdge // caller key -> edges
+	c     *Ctx
+	Out   map[*ssa.Function][]cgEdge
+	Nodes []*ssa.Function
+	// ReflectCalls lists uses of reflect.Value.Call/Method/MethodByName (reachability is undecided if any)
+	ReflectCalls []string
 }
 
 type cgEdge struct {
-	Callee string
-	Site   string
-	Kind   string // static | invoke | closure | escape
+	Callee *ssa.Function
+	Site   ssa.Instruction
+	Kind   string // static | invoke | dynamic | escape
+}
+
+func (c *Ctx) Graph() *ModGraph {
+	if c.cg != nil {
+		return c.cg
+	}
+	g := &ModGraph{c: c, Out: map[*ssa.Function][]cgEdge{}, Nodes: c.Funcs}
+	// functions whose value is taken (address-taken set), by signature string
+	taken := map[string][]*ssa.Function{}
+	addTaken := func(f *ssa.Function) {
+		if f == nil || !c.InModule(f) || f.Blocks == nil {
+			return
+		}
+		k := types.TypeString(stripRecv(f.Signature), nil)
+		for _, x := range taken[k] {
+			if x == f {
+				return
+			}
+		}
+		taken[k] = append(taken[k], f)
+	}
+	for _, fn := range c.Funcs {
+		for _, b := range fn.Blocks {
+			for _, ins := range b.Instrs {
+				if mc, ok := ins.(*ssa.MakeClosure); ok {
+					addTaken(mc.Fn.(*ssa.Function))
+				}
+				var ops []*ssa.Value
+				ops = ins.Operands(ops)
+				for i, op := range ops {
+					if op == nil || *op == nil {
+						continue
+					}
+					f, ok := (*op).(*ssa.Function)
+					if !ok {
+						continue
+					}
+					// skip the callee position of a call
+					if ci, isCall := ins.(ssa.CallInstruction); isCall && i == 0 && ci.Common().Value == *op {
+						continue
+					}
+					addTaken(f)
+				}
+			}
+		}
+	}
+	// implementations cache
+	implsOf := func(iface *types.Interface, method string) []*ssa.Function {
+		var out []*ssa.Function
+		for _, p := range c.Pkgs {
+			sc := p.Types.Scope()
+			for _, name := range sc.Names() {
+				tn, ok := sc.Lookup(name).(*types.TypeName)
+				if !ok || tn.IsAlias() {
+					continue
+				}
+				if _, isI := tn.Type().Underlying().(*types.Interface); isI {
+					continue
+				}
+				for _, t := range []types.Type{tn.Type(), types.NewPointer(tn.Type())} {
+					if !types.Implements(t, iface) {
+						continue
+					}
+					ms := c.Prog.MethodSets.MethodSet(t)
+					for i := 0; i < ms.Len(); i++ {
+						if ms.At(i).Obj().Name() == method {
+							if f := c.Prog.MethodValue(ms.At(i)); f != nil {
+								out = append(out, f)
+							}
+						}
+					}
+				}
+			}
+		}
+		return out
+	}
+	addEdge := func(from, to *ssa.Function, site ssa.Instruction, kind string) {
+		if to == nil {
+			return
+		}
+		// look through synthetic wrappers (promoted methods, bound methods)
+		if to.Blocks == nil {
+			return
+		}
+		g.Out[from] = append(g.Out[from], cgEdge{to, site, kind})
+	}
+	for _, fn := range c.Funcs {
+		for _, b := range fn.Blocks {
+			for _, ins := range b.Instrs {
+				ci, ok := ins.(ssa.CallInstruction)
+				if !ok {
+					continue
+				}
+				cc := ci.Common()
+				switch {
+				case cc.IsInvoke():
+					iface, _ := cc.Value.Type().Underlying().(*types.Interface)
+					if iface != nil {
+						for _, f := range implsOf(iface, cc.Method.Name()) {
+							addEdge(fn, f, ins, "invoke")
+						}
+					}
+				case cc.StaticCallee() != nil:
+					callee := cc.StaticCallee()
+					if c.InModule(callee) {
+						addEdge(fn, callee, ins, "static")
+					} else {
+						name := calleeFullName(ci)
+						switch name {
+						case "(reflect.Value).Call", "(reflect.Value).CallSlice", "(reflect.Value).Method", "(reflect.Value).MethodByName":
+							g.ReflectCalls = append(g.ReflectCalls, c.FuncKey(fn)+" calls "+name+" at "+c.Pos(ins.Pos()))
+						}
+						// escape edges
+						for _, a := range cc.Args {
+							g.escape(fn, a, ins, addEdge)
+						}
+					}
+				default:
+					// call of a function value
+					if mc, ok := cc.Value.(*ssa.MakeClosure); ok {
+						addEdge(fn, mc.Fn.(*ssa.Function), ins, "static")
+						break
+					}
+					k := types.TypeString(cc.Signature(), nil)
+					for _, f := range taken[k] {
+						addEdge(fn, f, ins, "dynamic")
+					}
+				}
+			}
+		}
+	}
+	// wrappers: synthetic functions reached through MethodValue have bodies too; include their out-edges lazily
+	c.cg = g
+	return g
+}
+
+func stripRecv(sig *types.Signature) *types.Signature {
+	return types.NewSignatureType(nil, nil, nil, sig.Params(), sig.Results(), sig.Variadic())
+}
+
+// escape adds edges for a module value handed to a library call.
+func (g *ModGraph) escape(from *ssa.Function, arg ssa.Value, site ssa.Instruction, addEdge func(from, to *ssa.Function, site ssa.Instruction, kind string)) {
+	c := g.c
+	seen := map[ssa.Value]bool{}
+	var walk func(v ssa.Value)
+	walk = func(v ssa.Value) {
+		if v == nil || seen[v] {
+			return
+		}
+		seen[v] = true
+		switch x := v.(type) {
+		case *ssa.Function:
+			if c.InModule(x) {
+				addEdge(from, x, site, "escape")
+			}
+		case *ssa.MakeClosure:
+			if f, ok := x.Fn.(*ssa.Function); ok && c.InModule(f) {
+				addEdge(from, f, site, "escape")
+			}
+		case *ssa.MakeInterface:
+			t := x.X.Type()
+			ms := c.Prog.MethodSets.MethodSet(t)
+			for i := 0; i < ms.Len(); i++ {
+				if f := c.Prog.MethodValue(ms.At(i)); f != nil && c.InModule(f) {
+					addEdge(from, f, site, "escape")
+				}
+			}
+			walk(x.X)
+		case *ssa.ChangeInterface:
+			walk(x.X)
+		case *ssa.ChangeType:
+			walk(x.X)
+		case *ssa.Phi:
+			for _, e := range x.Edges {
+				walk(e)
+			}
+		case *ssa.Slice:
+			// variadic ...any: look at what is stored into the backing array
+			if al, ok := x.X.(*ssa.Alloc); ok {
+				for _, ref := range *al.Referrers() {
+					if ia, ok := ref.(*ssa.IndexAddr); ok {
+						for _, rr := range *ia.Referrers() {
+							if st, ok := rr.(*ssa.Store); ok {
+								walk(st.Val)
+							}
+						}
+					}
+				}
+			}
+		}
+	}
+	walk(arg)
+}
+
+// Reach computes the functions reachable from the entry points, with one witness path each.
+func (g *ModGraph) Reach(entries ...*ssa.Function) map[*ssa.Function][]string {
+	out := map[*ssa.Function][]string{}
+	var queue []*ssa.Function
+	for _, e := range entries {
+		if e != nil {
+			if _, ok := out[e]; !ok {
+				out[e] = []string{g.c.FuncKey(e)}
+				queue = append(queue, e)
+			}
+		}
+	}
+	for len(queue) > 0 {
+		f := queue[0]
+		queue = queue[1:]
+		edges := g.Out[f]
+		// synthetic wrappers are not in Out: expand on the fly
+		if edges == nil && f.Synthetic != "" {
+			edges = g.edgesOfSynthetic(f)
+		}
+		for _, e := range edges {
+			if _, ok := out[e.Callee]; !ok {
+				out[e.Callee] = append(append([]string{}, out[f]...), g.c.FuncKey(e.Callee))
+				queue = append(queue, e.Callee)
+			}
+		}
+	}
+	return out
+}
+
+func (g *ModGraph) edgesOfSynthetic(f *ssa.Function) []cgEdge {
+	var out []cgEdge
+	for _, ci := range callsIn(f) {
+		if callee := ci.Common().StaticCallee(); callee != nil && g.c.InModule(callee) && callee.Blocks != nil {
+			out = append(out, cgEdge{callee, ci, "static"})
+		}
+	}
+	return out
+}
+
+// Callers lists the module functions with an edge to f.
+func (g *ModGraph) Callers(f *ssa.Function) []*ssa.Function {
+	seen := map[*ssa.Function]bool{}
+	var out []*ssa.Function
+	for from, es := range g.Out {
+		for _, e := range es {
+			if e.Callee == f && !seen[from] {
+				seen[from] = true
+				out = append(out, from)
+			}
+		}
+	}
+	sort.Slice(out, func(i, j int) bool { return g.c.FuncKey(out[i]) < g.c.FuncKey(out[j]) })
+	return out
+}
+
+// entryPoints: the functions through which file contents and artifact state enter.
+func (c *Ctx) entryPoints() (map[string]*ssa.Function, []string) {
+	out := map[string]*ssa.Function{}
+	var missing []string
+	add := func(name string, f *ssa.Function) {
+		if f == nil {
+			missing = append(missing, name)
+			return
+		}
+		out[name] = f
+	}
+	add("config.ParseConfig", c.Func("generator/config", "ParseConfig"))
+	add("db.PlanBulkUpdate", c.Func("generator/db", "PlanBulkUpdate"))
+	add("db.BulkUpdate", c.Func("generator/db", "BulkUpdate"))
+	add("cert.ReadPem", c.Func("generator/cert", "ReadPem"))
+	add("filesystem.FsDb.Open", c.Method("generator/db/filesystem", "FsDb", "Open"))
+	// the CLI's sign closure: the anonymous function that calls db.BulkUpdate
+	for fn := range c.funcsCalling(c.modPkg("generator/db") + ".BulkUpdate") {
+		if strings.HasSuffix(fn.Pkg.Pkg.Path(), "/cli") {
+			out["cli.sign"] = fn
+		}
+	}
+	if out["cli.sign"] == nil {
+		missing = append(missing, "cli sign closure")
+	}
+	return out, missing
 }
